@@ -36,6 +36,7 @@ THEOREMS = [
     "C16_roundtrip",
     "C16_roundtrip_unchanged",
     "C16_midrun_copy",
+    "C16_by_value",
 ]
 RULE = (
     "real for-nodes made by for_node / Cls.for_node / node.iter / node.zip / as a workflow child fed through data "
@@ -104,6 +105,34 @@ class CtlExecutor(Executor):
             f.set_exception(e)
         else:
             f.set_result(res)
+
+    def shutdown(self, wait=True, *, cancel_futures=False):
+        pass
+
+
+class ByValueExecutor(Executor):
+    """an emulated process boundary (what execsim's `ctl-pickle` / `ctl-cloudpickle` modes do to one job): the job
+    runs at once, but on a dumps/loads copy of the callable and its arguments (for a node: of the node itself), and
+    the result comes back through dumps/loads as well — the node then merges the returned copy into itself"""
+
+    def __init__(self, mode):
+        self.mode = mode
+        self.n = 0
+
+    def submit(self, fn, /, *args, **kwargs):
+        import cloudpickle
+
+        dumps, loads = (pickle.dumps, pickle.loads) if self.mode == "pickle" else (cloudpickle.dumps, cloudpickle.loads)
+        fut = Future()
+        self.n += 1
+        try:
+            fn2, args2, kwargs2 = loads(dumps((fn, args, kwargs)))
+            res = loads(dumps(fn2(*args2, **kwargs2)))
+        except BaseException as e:  # noqa: BLE001
+            fut.set_exception(e)
+        else:
+            fut.set_result(res)
+        return fut
 
     def shutdown(self, wait=True, *, cancel_futures=False):
         pass
@@ -511,6 +540,37 @@ def gen_cases(rng, tier):
                 run["pickle"] = "file"
         yield case
 
+    # 5f. the loop node ITSELF (or the workflow owning it) on a by-value executor: every run happens on a pickled
+    #     copy that is merged back. Histories: run -> new values, same lengths -> other lengths -> unchanged run
+    #     (-> round trip -> grown lists), to be compared with the reference table and the model's plain runs
+    for i in range(90 if quick else 900):
+        body = rng.choice(["B4", "B4", "B3", "BC"])
+        inputs = BODIES[body]["inputs"]
+        roles = rng.choice(list(_splits(inputs)))
+        iter_on = [k for k, r in zip(inputs, roles) if r == "i"]
+        zip_on = [k for k, r in zip(inputs, roles) if r == "z"]
+        looped = iter_on + zip_on
+        cms = [c for c in _colmaps(body, iter_on, zip_on) if _columns_distinct(body, iter_on, zip_on, c)]
+        l0 = {k: rng.randint(1, 3) for k in looped}
+        l2 = {k: rng.randint(1, 4) for k in looped}
+        l4 = {k: v + rng.randint(0, 2) for k, v in l2.items()}
+        lens_seq = [l0, dict(l0), l2, dict(l2)] + ([l4] if rng.random() < 0.5 else [])
+        entry = "wf" if i % 3 == 2 else rng.choice(["for_node", "cls"])
+        case = _mk_case(rng, body, roles, rng.random() < 0.5, rng.choice(cms), rng.random() < 0.85, entry,
+                        False, lens_seq)
+        case["self_exec"] = "cloudpickle" if i % 2 else "pickle"
+        # run 1: new values at the same lengths; run 3: literally unchanged
+        style_vals = lambda k, n, tag: [f"{k}{tag}{j}" for j in range(n)]  # noqa: E731
+        case["runs"][1]["set"] = {k: style_vals(k, l0[k], "n") for k in looped}
+        if rng.random() < 0.5:
+            bc = [k for k in inputs if k not in looped]
+            if bc:
+                case["runs"][1]["set"][rng.choice(bc)] = "NEW"
+        case["runs"][3]["set"] = {}
+        if entry != "wf" and rng.random() < 0.3:
+            case["runs"][rng.choice([0, 2])]["pickle"] = "after"
+        yield case
+
     # 5b. body nodes on REAL executors (threads, processes): the completion order is whatever it is
     for i in range(24 if quick else 160):
         body = rng.choice(["B4", "B3"])
@@ -654,6 +714,17 @@ def corpus():
     yield {"kind": "for", "body": "B4", "iter": ["a"], "zip": ["b"], "df": True, "colmap": None, "use_cache": True,
            "entry": "wf", "executor": False, "init": {"a": ["a0", "a1"], "b": ["b0", "b1", "b2"], "c": "C"},
            "runs": [{"set": {}, "how": "call"}, {"set": {"a": ["z"]}, "how": "call"}]}
+    # the loop node itself on a by-value executor (seeded C16-5): new values at the same lengths, other lengths,
+    # unchanged, grown; parentless and as the child of a shipped workflow; both forms
+    for entry, form_df, mode in (("for_node", True, "pickle"), ("cls", False, "cloudpickle"), ("wf", True, "pickle")):
+        yield {"kind": "for", "body": "B4", "iter": ["a"], "zip": ["b", "c"], "df": form_df, "colmap": None,
+               "use_cache": True, "entry": entry, "executor": False, "self_exec": mode,
+               "init": {"a": ["1", "2", "3"], "b": ["10", "20"], "c": ["5", "6", "7"], "d": "x"},
+               "runs": [{"set": {}, "how": "call"},
+                        {"set": {"a": ["7", "8", "9"], "b": ["30", "40"], "c": ["1", "2", "3"], "d": "y"}, "how": "call"},
+                        {"set": {"a": ["4", "5"], "b": ["50", "60", "70"], "c": ["8", "9"], "d": "z"}, "how": "setrun"},
+                        {"set": {}, "how": "call"},
+                        {"set": {"a": ["4", "5", "6", "7"], "c": ["8", "9", "0"]}, "how": "assign"}]}
     # pickling: at rest, through a file, mid-run (history continues on the copy), after a failed run
     yield {"kind": "for", "body": "B4", "iter": ["a"], "zip": ["b"], "df": True, "colmap": {"o": "O"}, "use_cache": True,
            "entry": "for_node", "executor": True, "init": {"a": ["a0", "a1"], "b": ["b0", "b1", "b2"], "c": "C"},
@@ -827,6 +898,11 @@ def _run_for(case):
                 return {"obs": obs, "runs": [], "stats": stats, "policy": policy, "created": False,
                         "mk_err": f"{type(e).__name__}: {e}"[:300]}
             f.body_node_executor = body_exec
+            self_exec = ByValueExecutor(case["self_exec"]) if case.get("self_exec") else None
+            if self_exec is not None:
+                # the loop node ITSELF (or the workflow that owns it) is shipped by value: run on a copy, merged back
+                (wf if wf is not None else f).executor = self_exec
+                stats["self_exec:" + case["self_exec"] + (":wf" if wf is not None else "")] = 1
             in_labels = list(f.inputs.labels)
             obs.append("ch " + " ".join(_child_name(f, c, in_labels) for c in f))
         else:
@@ -858,10 +934,17 @@ def _run_for(case):
                             wf.add_child(srcs[k])
                             f.inputs[k] = srcs[k]
                         srcs[k].inputs.user_input = v
-                    wf.run()  # outputs are read off the loop node below
+                    fut = wf.run()  # outputs are read off the loop node below
+                    if isinstance(fut, Future):
+                        fut.result()
+                    if case.get("self_exec"):
+                        # a shipped workflow comes back with NEW children: ours are the discarded ones now
+                        f = wf.children["loop"]
+                        srcs = {k: wf.children["src_" + k] for k in srcs}
                 else:
                     if run["how"] == "call":
-                        ret = f(**sets)
+                        # (`__call__` pulls the data tree, which the library refuses for a node with an executor)
+                        ret = f.run(**sets) if case.get("self_exec") else f(**sets)
                     elif run["how"] == "setrun":
                         f.set_input_values(**sets)
                         ret = f.run()
@@ -869,11 +952,15 @@ def _run_for(case):
                         for k, v in sets.items():
                             setattr(f.inputs, k, v)
                         ret = f.run()
+                if isinstance(ret, Future):
+                    ret = ret.result()
             except Exception as e:  # noqa: BLE001
                 res = "err " + _exc_kind(e)
                 err_text = f"{type(e).__name__}: {e}"[:300]
                 if f is not None:
                     f.failed = False
+                    if case.get("self_exec"):
+                        f.running = False
                 if wf is not None:
                     wf.failed = False
             leftover = 0
@@ -921,6 +1008,8 @@ def _run_for(case):
                         for child in f:  # the body copies were out: still flagged running, their inputs locked
                             child.running = False
                         f.body_node_executor = body_exec
+                        if case.get("self_exec"):
+                            f.executor = self_exec
                         obs.append("snap ok")
                         obs.extend(_state_lines(case, f))
                     else:
@@ -934,6 +1023,8 @@ def _run_for(case):
                     else:
                         f = pickle.loads(pickle.dumps(f))
                     f.body_node_executor = body_exec
+                    if case.get("self_exec"):
+                        f.executor = self_exec
                     obs.append("rl")
                     obs.extend(_state_lines(case, f))
             runs_out.append({"res": res, "outs": struct, "children": children, "n_children": n_children,
@@ -1049,7 +1140,8 @@ def model_input(case, impl=None):
         if shortcut and ro:
             order = list(range(len(ro["calls"])))  # the for-node is not reachable: every body that was called
         how_p = _pickle_mode(case, run)
-        lines.append(("runq " if shortcut else "snaprun " if how_p == "mid" else "run ") + " ".join(map(str, order)))
+        verb = "runq " if shortcut else "snaprun " if how_p == "mid" else "rrun " if case.get("self_exec") else "run "
+        lines.append(verb + " ".join(map(str, order)))
         if how_p in ("after", "file"):
             lines.append("reload")
     return lines
